@@ -1092,3 +1092,142 @@ Definition op_valid (o : op) : bool :=
   | _ => true
   end.
 Definition valid (ops : list (N * op)) : bool := forallb (fun so => op_valid (snd so)) ops.
+
+(* ================================================================ a RUN of several tests with the MockSupportPlugin installed
+   src/CppUTestExt/MockSupportPlugin.cpp (postTestAction), src/CppUTest/Utest.cpp (UtestShell::runOneTestInCurrentProcess: body, then
+   the plugins' post actions; hasFailed_ is a flag of the test's shell, set by UtestShell::addFailure), src/CppUTest/TestResult.cpp
+   (failureCount_ is ONE counter for the whole run).
+   A scenario is a list of tests.  Each test is a list of steps: mock operations (as above, on mock() or on a scope) and checks of
+   the test's own (CHECK(ok)).  A test is left at its first failure -- its own failing check or the mock failure an operation
+   raises (MockFailureReporter::failTest -> UtestShell::failWith: counted once, hasFailed_ set, the test is left).  After the body
+   the installed plugin makes the end-of-test check: mock().checkExpectations() with the reporter that records and returns, but
+   only if THIS test has not failed; then mock().clear() in every case.  mock() is one global object and the TestResult is one
+   object for the whole run: both are threaded through the tests here. *)
+Inductive tstep :=
+| TOp (so : N * op)        (* a mock operation of the test body *)
+| TCheck (ok : bool).      (* a check of the test's own: CHECK(ok) -- false fails the test and leaves it *)
+Definition test := list tstep.
+
+(* how the body of a test ended: at its end (with the mock state it leaves), at a mock failure (index among the mock operations of
+   the body), at its own failing check *)
+Inductive bend := BDone (w : world) | BMock (i : N) (fl : failure) | BOwn (w : world).
+Fixpoint body_from (fx : bool) (w : world) (i : N) (t : test) (a : acc) : bend * acc :=
+  match t with
+  | [] => (BDone w, a)
+  | TCheck true :: r => body_from fx w i r a
+  | TCheck false :: _ => (BOwn w, a)
+  | TOp so :: r => match stepw fx w so with
+                   | inr fl => (BMock i fl, a)
+                   | inl (w', rv) => body_from fx w' (i + 1)%N r (add_effect a rv)
+                   end
+  end.
+
+Record rstate := { rs_world : world;       (* mock() and its scopes *)
+                   rs_failures : N }.      (* TestResult::failureCount_ of the run *)
+Definition rstate0 : rstate := {| rs_world := world0; rs_failures := 0 |}.
+
+(* the plugin's post action: given test.hasFailed(), result.getFailureCount() and the mock state the body left (None: the state
+   after an operation that raised a mock failure, which is not modelled -- nothing may depend on it), the mock state afterwards
+   and the failures delivered to result.addFailure *)
+Definition plugin_t := bool -> N -> option world -> world * list failure.
+(* MockSupportPlugin::postTestAction *)
+Definition plugin_post : plugin_t := fun failed _ ow =>
+  (world0,                                                            (* mock().clear() *)
+   match failed, ow with false, Some w => post_world w | _, _ => [] end).   (* if (!test.hasFailed()) mock().checkExpectations() *)
+
+(* what is observed of one test: the observation of its mock operations as before (o_post = what the plugin's check delivered),
+   whether its own check failed, and TestResult::getFailureCount() when the test ended *)
+Record tobs := { to_obs : obs; to_own : bool; to_total : N }.
+Definition post_effect (fs : list failure) : effect := {| r_ret := None; r_outs := []; r_left := None; r_post := fs |}.
+Definition left_world (e : bend) : option world := match e with BDone w | BOwn w => Some w | BMock _ _ => None end.
+Definition body_failed (e : bend) : bool := match e with BDone _ => false | _ => true end.
+
+(* UtestShell::runOneTestInCurrentProcess with the plugin installed *)
+Definition run_one (pl : plugin_t) (fx : bool) (st : rstate) (t : test) : rstate * tobs :=
+  let (e, a) := body_from fx (rs_world st) 0%N t acc0 in
+  let n1 := (rs_failures st + (if body_failed e then 1 else 0))%N in      (* UtestShell::addFailure -> TestResult::addFailure *)
+  let (w', fs) := pl (body_failed e) n1 (left_world e) in
+  let n2 := (n1 + N.of_nat (length fs))%N in                              (* MockSupportPluginReporter::failTest = result.addFailure *)
+  ({| rs_world := w'; rs_failures := n2 |},
+   {| to_obs := mk_obs (match e with BMock i fl => Some (i, fl) | _ => None end) (add_effect a (post_effect fs));
+      to_own := match e with BOwn _ => true | _ => false end;
+      to_total := n2 |}).
+(* TestRegistry::runAllTests: every test in turn *)
+Fixpoint run_tests (pl : plugin_t) (fx : bool) (st : rstate) (ts : list test) : rstate * list tobs :=
+  match ts with
+  | [] => (st, [])
+  | t :: r => let (st1, o) := run_one pl fx st t in let (st2, os) := run_tests pl fx st1 r in (st2, o :: os)
+  end.
+Definition runs_gen (pl : plugin_t) (ts : list test) : list tobs := snd (run_tests pl true rstate0 ts).
+Definition runs : list test -> list tobs := runs_gen plugin_post.
+(* one test run alone *)
+Definition run_alone (t : test) : tobs := snd (run_one plugin_post true rstate0 t).
+
+(* --- the property over a run, model-free: the verdict of test k is the verdict of ITS mock script and of nothing else.
+   A test whose own checks all pass is judged as the single scenario "its mock operations, then the plugin's end-of-test check"
+   (specw: passes iff the multisets / sequences agree in every scope, first deviation once with the matching diagnosis, values of
+   the consumed expectations) -- whatever the tests before it did; a test that is left at its own failing check fails exactly once,
+   with that check (the mock script was cut short: nothing is demanded of the expectations it leaves, and nothing may be added);
+   every failure delivered in a test is counted once in the run's failure counter, in that test. *)
+Fixpoint ops_before (t : test) : list (N * op) :=      (* the mock operations before the first failing own check *)
+  match t with
+  | [] => []
+  | TOp so :: r => so :: ops_before r
+  | TCheck true :: r => ops_before r
+  | TCheck false :: _ => []
+  end.
+Definition own_fails (t : test) : bool := existsb (fun s => match s with TCheck false => true | _ => false end) t.
+Definition failures_in (o : tobs) : N :=
+  ((if to_own o then 1 else 0) + (match o_fail (to_obs o) with Some _ => 1 | None => 0 end) + N.of_nat (length (o_post (to_obs o))))%N.
+Definition spec_test (t : test) (prev : N) (o : tobs) : bool :=
+  (to_total o =? prev + failures_in o)%N &&
+  if own_fails t then
+    coherent (ops_before t) (to_obs o) && is_nil (o_post (to_obs o)) &&
+    match o_fail (to_obs o) with
+    | Some (i, _) => negb (to_own o) && (i <? N.of_nat (length (ops_before t)))%N    (* a mock failure came first *)
+    | None => to_own o
+    end
+  else negb (to_own o) && specw (ops_before t ++ [(0%N, OPost)]) (to_obs o).
+Fixpoint spec_run_from (prev : N) (ts : list test) (os : list tobs) : bool :=
+  match ts, os with
+  | [], [] => true
+  | t :: tr, o :: or => spec_test t prev o && spec_run_from (to_total o) tr or
+  | _, _ => false
+  end.
+Definition spec_run : list test -> list tobs -> bool := spec_run_from 0%N.
+
+(* validity of a run: values as before; the end-of-test action is the plugin's, a test body does not call it itself *)
+Definition step_valid (s : tstep) : bool :=
+  match s with
+  | TOp (_, OPost) => false
+  | TOp (_, o) => op_valid o
+  | TCheck _ => true
+  end.
+Definition valid_run (ts : list test) : bool := forallb (forallb step_valid) ts.
+
+(* --- both kinds of scenario under one roof *)
+Inductive scenario := SOps (ops : list (N * op)) | SRun (ts : list test).
+Inductive sobs := BOps (o : obs) | BRun (os : list tobs).
+Definition run_top (s : scenario) : sobs := match s with SOps ops => BOps (runw ops) | SRun ts => BRun (runs ts) end.
+Definition spec_top (s : scenario) (o : sobs) : bool :=
+  match s, o with
+  | SOps ops, BOps o => specw ops o
+  | SRun ts, BRun os => spec_run ts os
+  | _, _ => false
+  end.
+Definition valid_top (s : scenario) : bool := match s with SOps ops => valid ops | SRun ts => valid_run ts end.
+
+(* --- variants of the plugin's post action that do NOT have the property (refuted in C08_Runs.v) *)
+(* decides from the run's failure count instead of the test's own flag *)
+Definition plugin_runwide : plugin_t := fun _ n ow =>
+  (world0, match (n =? 0)%N, ow with true, Some w => post_world w | _, _ => [] end).
+(* makes the check also when the test has already failed *)
+Definition plugin_always : plugin_t := fun _ _ ow =>
+  (world0, match ow with Some w => post_world w | None => [] end).
+(* clears the mock only after a check was made: what a failed test leaves reaches the next test *)
+Definition plugin_noclear : plugin_t := fun failed _ ow =>
+  match failed, ow with
+  | false, Some w => (world0, post_world w)
+  | _, Some w => (w, [])
+  | _, None => (world0, [])
+  end.
